@@ -121,7 +121,8 @@ pub fn record(output: &str) {
         let case = if selfc { shape::make_case_with(&mut r, 3 * tries + 2, 0, false, None, &[]) }
                    else if asym { shape::make_case_with(&mut r, 6 * tries, 0, tries % 2 == 0, Some((0.15, 6.1)), &slab) }
                    else if plate_case { shape::make_case_with(&mut r, 6 * tries, 0, true, None, &[plate]) }
-                   else { shape::make_case_with(&mut r, tries, 2 + tries % 3, tries % 4 == 3, None, &[]) };
+                   // (every second cluttered cell belongs to a robot whose limits were narrowed after its constraints were created)
+                   else { shape::make_case_with(&mut r, if tries % 2 == 1 { 5 * tries + 1 } else { tries }, 2 + tries % 3, tries % 4 == 3, None, &[]) };
         let kws = &case.kws;
         let pick_free = |r: &mut rand::rngs::StdRng| -> Option<Joints> {
             for _ in 0..40 {
